@@ -113,6 +113,8 @@ THEOREMS = [
     "OllamaVerif.C13.displayShortest_case_witness",
     "OllamaVerif.C13.cross_modelpath_partial",
     "OllamaVerif.C13.cross_modelpath_scheme_witness",
+    "OllamaVerif.C13.cross_modelpath_scheme",
+    "OllamaVerif.C13.cross_modelpath",
     "OllamaVerif.Tie.C13.first_sets_match",
     "OllamaVerif.Tie.C13.rest_sets_match",
     "OllamaVerif.Tie.C13.length_limits_match",
